@@ -201,6 +201,11 @@ impl<'a, 'b, 'c> AdtDeserializer<'a, 'b, 'c> {
         }
     }
 
+    /// The constructor index stored in the data (read on first use).
+    pub fn read_constructor_idx(&mut self) -> Result<u32> {
+        self.read_or_get_constructor_idx()
+    }
+
     fn record_field_index(&mut self, chunk: u8) -> FieldPosition {
         let last_index = &mut self.last_index_per_chunk[chunk as usize];
         let new_index = *last_index + 1;
